@@ -120,6 +120,8 @@ def metas_for(t):
             shapes += [(None, E.val(E.F32, F(16777216.0)))]
         if k in (E.I64, E.U64):
             shapes += [(E.val(E.F64, D(1.0)), None)]
+            # bounds that no double represents: every API has to report exactly these numbers
+            shapes += [(E.val(k, -(2**53 + 1) if k == E.I64 else 2**53 + 1), E.val(k, 2**63 - 2 if k == E.I64 else 2**64 - 2))]
     als = [None, E.val(ARR[k], ALLOWED[k])]
     foreign = E.I64A if k != E.I64 else E.I32A
     als.append(E.val(foreign, [1, 10]))
